@@ -67,7 +67,15 @@ StatusUniverse(m) == CounterKeys \cup {m.status[e] : e \in {x \in Els(m) : m.kin
 CensusOf(m, k, s) ==
    IF k = "step" THEN SumFun([e \in ScenSet(m) |-> CountSeq(m.steps[e], s)], ScenSet(m))
    ELSE Cardinality({e \in Els(m) : m.kind[e] = k /\ m.status[e] = s})
-Census(m) == [k \in KindSet |-> [s \in StatusUniverse(m) |-> CensusOf(m, k, s)]]
+\* the same as one fold per kind (Z = the zero function over the status universe); CensusOf is the definition,
+\* CensusFold the fast form used by the clauses (Summary_MC checks that they agree: CensusFoldIsCensus)
+RECURSIVE AddSeq(_, _, _)
+AddSeq(f, s, i) == IF i > Len(s) THEN f ELSE AddSeq([f EXCEPT ![s[i]] = @ + 1], s, i + 1)
+RECURSIVE CensusFold(_, _, _, _)
+CensusFold(m, f, k, e) ==
+   IF e > Len(m.kind) THEN f
+   ELSE CensusFold(m, IF k = "step" THEN (IF m.kind[e] = "scenario" THEN AddSeq(f, m.steps[e], 1) ELSE f)
+                      ELSE IF m.kind[e] = k THEN [f EXCEPT ![m.status[e]] = @ + 1] ELSE f, k, e + 1)
 Population(m) == [k \in KindSet |->
    IF k = "step" THEN SumFun([e \in ScenSet(m) |-> Len(m.steps[e])], ScenSet(m))
    ELSE Cardinality({e \in Els(m) : m.kind[e] = k})]
@@ -171,8 +179,7 @@ FormatLine(fmt, t) ==
         ELSE [printed |-> TRUE, parts |-> ps, has_total |-> TRUE, total |-> TotalOf(t)]   \* v1A v2 v3: "T kind(s) ... parts"
 
 WithAll(c) == [c EXCEPT !["all"] = SumButAll(c)]                 \* compute_summary_sums
-SpecV1(m, fmt) ==
-   LET st == V1Run(m) IN
+SpecV1(st, fmt) ==                                 \* st = V1Run(m)
    IF st.crashed
    THEN [impl |-> "V1", fmt |-> fmt, crashed |-> "KeyError", crash_at |-> "feature",
          lines |-> <<NoLine, NoLine, NoLine, NoLine>>, failing |-> <<>>, errored |-> <<>>]
@@ -184,74 +191,70 @@ SpecV1(m, fmt) ==
             failing |-> st.failed, errored |-> st.errored]
 \* SummaryReporterV2: collector + the same format functions on enum-keyed tables; print_summary then reads
 \* summary_counts.hook_failed, which SummaryCounts does not have: AttributeError after the four lines
-SpecV2(m, fmt) ==
-   LET st == ColRun(m) IN
+SpecV2(st, fmt) ==                                 \* st = ColRun(m)
    [impl |-> "V2", fmt |-> fmt, crashed |-> "AttributeError", crash_at |-> "end",
     lines |-> <<FormatLine(fmt, EnumTab(st.feat)), IF SumAll(st.rule) > 0 THEN FormatLine(fmt, EnumTab(st.rule)) ELSE NoLine,
                 FormatLine(fmt, EnumTab(st.scen)), FormatLine(fmt, EnumTab(st.step))>>,
     failing |-> st.failed, errored |-> st.errored]
-SpecRep(m, impl, fmt) == IF impl = "V2" THEN SpecV2(m, fmt) ELSE [SpecV1(m, fmt) EXCEPT !.impl = impl]
-SpecCollector(m) == LET st == ColRun(m) IN
+SpecCollector(st) ==
    [crashed |-> "", counts |-> <<st.feat, st.rule, st.scen, st.step>>, failing |-> st.failed, errored |-> st.errored]
 
 \* ================================================================ (P) the clauses
-\* a verdict is <<clause, impl, fmt, kind, family>>; family "none" unless the violation is exactly one known defect
-RECURSIVE SumParts(_, _, _)
-SumParts(ps, nm, i) == IF i > Len(ps) THEN 0                      \* nm = "" : all parts
-                       ELSE (IF nm = "" \/ ps[i].name = nm THEN ps[i].n ELSE 0) + SumParts(ps, nm, i + 1)
-Num(line, s) == SumParts(line.parts, s, 1)                        \* not printed = 0 (optional parts are suppressed when zero)
-Names(line) == {line.parts[i].name : i \in DOMAIN line.parts}
+\* a verdict is <<clause, impl, fmt, kind, family>>; family "none" unless the violation is exactly one known defect.
+\* For speed every printed line is folded once into a function status -> number over the domain D = statuses of the
+\* model + statuses the code knows + "?" (any other printed name; its census is 0); not printed = 0 (optional
+\* parts are suppressed when zero), so that most comparisons are one native function equality.
+RECURSIVE SumParts(_, _)
+SumParts(ps, i) == IF i > Len(ps) THEN 0 ELSE ps[i].n + SumParts(ps, i + 1)
+RECURSIVE FoldParts(_, _, _)
+FoldParts(f, ps, i) == IF i > Len(ps) THEN f
+                       ELSE LET nm == IF ps[i].name \in DOMAIN f THEN ps[i].name ELSE "?" IN
+                            FoldParts([f EXCEPT ![nm] = @ + ps[i].n], ps, i + 1)
 LineOf(o, k) == o.lines[KIx(k)]
+Fam(b, f) == IF b THEN f ELSE "none"
+Differ(f, g) == {s \in DOMAIN f : f[s] # g[s]}
 
 \* C14.count -- each printed count = number of elements with that final status; nothing with census > 0 is left out
-CountBad(C, SU, line, k) == {s \in SU \cup Names(line) : Num(line, s) # (IF s \in SU THEN C[k][s] ELSE 0)}
-\* C14.sum -- the counts add up to the number of elements of the kind; so does a printed total
-SumBad(P, line, k) == SumParts(line.parts, "", 1) # P[k] \/ (line.has_total /\ line.total # P[k])
-\* the v1B defect and nothing else: the passed count is printed as 0
-V1BZero(C, SU, o, line, k) == /\ o.fmt = "v1B" /\ o.impl = "V1"
-                              /\ CountBad(C, SU, line, k) = {"passed"} /\ Num(line, "passed") = 0
-Fam(b, f) == IF b THEN f ELSE "none"
-
-RepClauses(m, C, P, SU, o) ==
+\* C14.sum   -- the counts add up to the number of elements of the kind; so does a printed total
+\* C14.listed -- failing / errored lists = scenarios with failed / error-class status
+\* C14.no_crash
+RepClauses(m, C, P, o, lf) ==                       \* lf = [k |-> folded line of kind k]
    IF o.crashed # "" THEN {<<"C14.no_crash", o.impl, o.fmt, "-",
                              Fam(o.impl = "V2" /\ o.crashed = "AttributeError" /\ o.crash_at = "end", "reporter_v2")>>}
    ELSE LET failed == {s \in ScenSet(m) : m.status[s] = "failed"}
             errd == {s \in ScenSet(m) : m.status[s] \in ErrorClass}
+            \* the v1B defect and nothing else: the passed count is printed as 0
+            V1BZero(k) == /\ o.fmt = "v1B" /\ o.impl = "V1" /\ lf[k]["passed"] = 0 /\ Differ(lf[k], C[k]) = {"passed"}
         IN UNION {
-              (IF CountBad(C, SU, LineOf(o, k), k) # {}
-               THEN {<<"C14.count", o.impl, o.fmt, k, Fam(V1BZero(C, SU, o, LineOf(o, k), k), "v1B_passed_zero")>>} ELSE {})
+              (IF lf[k] # C[k] THEN {<<"C14.count", o.impl, o.fmt, k, Fam(V1BZero(k), "v1B_passed_zero")>>} ELSE {})
               \cup
-              (IF SumBad(P, LineOf(o, k), k)
-               THEN {<<"C14.sum", o.impl, o.fmt, k, Fam(V1BZero(C, SU, o, LineOf(o, k), k), "v1B_passed_zero")>>} ELSE {})
+              (IF SumParts(LineOf(o, k).parts, 1) # P[k] \/ (LineOf(o, k).has_total /\ LineOf(o, k).total # P[k])
+               THEN {<<"C14.sum", o.impl, o.fmt, k, Fam(V1BZero(k), "v1B_passed_zero")>>} ELSE {})
               : k \in KindSet}
            \cup (IF SeqSet(o.failing) # failed \/ SeqSet(o.errored) # errd
                  THEN {<<"C14.listed", o.impl, o.fmt, "scenario", "none">>} ELSE {})
 
-\* C14.formats -- all formats of one implementation print the same numbers (reference: the first one that did not crash)
-FormatClauses(C, SU, reps, impl) ==
-   LET mine == SelectSeq(reps, LAMBDA o : o.impl = impl /\ o.crashed = "") IN
+\* C14.formats -- all formats of one implementation print the same numbers (reference: the first one that did not
+\* crash; totals: the first one that prints a total)
+FormatClauses(reps, lfs, impl) ==
+   LET mine == SelectSeq(Ids(Len(reps)), LAMBDA i : reps[i].impl = impl /\ reps[i].crashed = "") IN
    IF Len(mine) < 2 THEN {}
    ELSE LET ref == mine[1]
-            withT == SelectSeq(mine, LAMBDA o : LineOf(o, "feature").has_total)
-            Differs(o, k) == \/ \E s \in SU \cup Names(LineOf(o, k)) \cup Names(LineOf(ref, k)) :
-                                    Num(LineOf(o, k), s) # Num(LineOf(ref, k), s)
-                             \/ /\ LineOf(o, k).has_total /\ LineOf(withT[1], k).has_total
-                                /\ LineOf(o, k).total # LineOf(withT[1], k).total
+            withT == SelectSeq(mine, LAMBDA i : LineOf(reps[i], "feature").has_total)
+            Differs(i, k) == \/ lfs[i][k] # lfs[ref][k]
+                             \/ /\ LineOf(reps[i], k).has_total /\ LineOf(reps[withT[1]], k).has_total
+                                /\ LineOf(reps[i], k).total # LineOf(reps[withT[1]], k).total
             \* exactly the v1B defect: differs from the reference in the passed count only, which it prints as 0
-            OnlyV1B(o, k) == /\ o.fmt = "v1B" /\ o.impl = "V1" /\ Num(LineOf(o, k), "passed") = 0
-                             /\ \A s \in (SU \cup Names(LineOf(o, k)) \cup Names(LineOf(ref, k))) \ {"passed"} :
-                                    Num(LineOf(o, k), s) = Num(LineOf(ref, k), s)
-        IN {<<"C14.formats", impl, mine[j].fmt, k, Fam(OnlyV1B(mine[j], k), "v1B_passed_zero")>> :
-               <<j, k>> \in {x \in (2..Len(mine)) \X KindSet : Differs(mine[x[1]], x[2])}}
+            OnlyV1B(i, k) == /\ reps[i].fmt = "v1B" /\ impl = "V1" /\ lfs[i][k]["passed"] = 0
+                             /\ Differ(lfs[i][k], lfs[ref][k]) = {"passed"}
+        IN {<<"C14.formats", impl, reps[mine[x[1]]].fmt, x[2], Fam(OnlyV1B(mine[x[1]], x[2]), "v1B_passed_zero")>> :
+               x \in {y \in (2..Len(mine)) \X KindSet : Differs(mine[y[1]], y[2])}}
 
 \* C14.collector -- SummaryCollector.summary_counts = census (c.counts: one Seq([name, n]) per kind; c.totals)
-CollectorClauses(m, C, P, SU, c) ==
+CollectorClauses(m, C, P, Z, c) ==
    IF c.crashed # "" THEN {<<"C14.no_crash", "collector", "-", "-", "none">>}
    ELSE {<<"C14.collector", "collector", "-", k, "none">> :
-            k \in {kk \in KindSet : LET ps == c.counts[KIx(kk)] IN
-                      \/ \E s \in SU \cup {ps[i].name : i \in DOMAIN ps} :
-                            SumParts(ps, s, 1) # (IF s \in SU THEN C[kk][s] ELSE 0)
-                      \/ c.totals[KIx(kk)] # P[kk]}}
+            k \in {kk \in KindSet : FoldParts(Z, c.counts[KIx(kk)], 1) # C[kk] \/ c.totals[KIx(kk)] # P[kk]}}
         \cup (LET failed == {s \in ScenSet(m) : m.status[s] = "failed"}
                   errd == {s \in ScenSet(m) : m.status[s] \in ErrorClass}
                   \* the collector's errored list compares with Status.error only
@@ -264,23 +267,40 @@ CollectorClauses(m, C, P, SU, c) ==
 \* the reporter of the real run (impl "live") is judged only if the run was not cut by an escaped exception
 Judged(obs) == SelectSeq(obs.reps, LAMBDA o : o.impl # "live" \/ obs.live_ok)
 Clauses(m, obs) ==
-   LET C == Census(m)  P == Population(m)  SU == StatusUniverse(m)  reps == Judged(obs) IN
-   UNION {RepClauses(m, C, P, SU, reps[i]) : i \in DOMAIN reps}
-   \cup FormatClauses(C, SU, reps, "V1") \cup FormatClauses(C, SU, reps, "V2")
-   \cup CollectorClauses(m, C, P, SU, obs.col)
+   LET SU == StatusUniverse(m) \cup {"?"}
+       Z == [s \in SU |-> 0]
+       C == [k \in KindSet |-> CensusFold(m, Z, k, 1)]
+       P == Population(m)
+       reps == Judged(obs)
+       lfs == [i \in DOMAIN reps |-> [k \in KindSet |-> IF reps[i].crashed # "" THEN Z
+                                                         ELSE FoldParts(Z, LineOf(reps[i], k).parts, 1)]]
+   IN UNION {RepClauses(m, C, P, reps[i], lfs[i]) : i \in DOMAIN reps}
+      \cup FormatClauses(reps, lfs, "V1") \cup FormatClauses(reps, lfs, "V2")
+      \cup CollectorClauses(m, C, P, Z, obs.col)
 
 \* the collector observation in the row format (parts per kind, totals) from the automaton state
 ColParts(c) == LET RECURSIVE go(_)
                    go(S) == IF S = {} THEN <<>> ELSE LET x == CHOOSE y \in S : TRUE IN <<[name |-> x, n |-> c[x]]>> \o go(S \ {x})
                IN go({k \in DOMAIN c : c[k] # 0})
-SpecColObs(m) == LET s == SpecCollector(m) IN
+SpecColObs(st) == LET s == SpecCollector(st) IN
    [crashed |-> "", counts |-> [i \in 1..4 |-> ColParts(s.counts[i])], totals |-> [i \in 1..4 |-> SumAll(s.counts[i])],
     failing |-> s.failing, errored |-> s.errored]
 \* everything the code does for one model, in the row format (S composed with P: Clauses(m, SpecObs(m)))
-SpecObs(m) == [reps |-> [i \in 1..10 |-> SpecRep(m, IF i <= 5 THEN "V1" ELSE "V2", Formats[((i - 1) % 5) + 1])],
-               col |-> SpecColObs(m), live_ok |-> FALSE]
+SpecObs(m) == LET v1 == V1Run(m)  col == ColRun(m) IN
+              [reps |-> [i \in 1..10 |-> IF i <= 5 THEN SpecV1(v1, Formats[i]) ELSE SpecV2(col, Formats[i - 5])],
+               col |-> SpecColObs(col), live_ok |-> FALSE]
 
-\* the named defect families of the code as it is (DESIGN §8 item 8 and what this check found); everything else is strict
+\* the named defect families of the code as it is (DESIGN §8 item 8 and what this check found); everything else is strict.
+\* When the code is repaired the transcription (S) has to follow in the same commit (and the exception goes away):
+\*  v1B_passed_zero      format_summary_with_schema(use_passed_for_all): status_counts.get(Status.passed, 0) on the
+\*                       name-keyed tables of SummaryReporterV1 is always 0.  Repair: look up Status.passed.name first;
+\*                       then GetByEnumPassed(t) also returns t.c["passed"] for t.sort = "name".
+\*  reporter_v2          SummaryReporterV2.print_summary reads summary_counts.hook_failed (no such attribute):
+\*                       AttributeError in end() for every model.  Behind it: `status.name in status_counts` is never
+\*                       true for the enum-keyed StatusCounts, so no part is printed (HasName).  Repair both; then
+\*                       SpecV2 does not crash and HasName / PartsFrom read enum-keyed tables as well.
+\*  collector_error_only SummaryCollector.on_scenario compares with Status.error, so hook_error scenarios are in
+\*                       no list.  Repair: status.is_error(); then ColScenario uses ErrorClass like V1Scenario.
 KF_C14_v1B_passed_zero(v) == v[5] = "v1B_passed_zero" /\ v[2] = "V1" /\ v[3] = "v1B" /\ v[1] \in {"C14.count", "C14.sum", "C14.formats"}
 KF_C14_reporter_v2_crash(v) == v[5] = "reporter_v2" /\ v[2] = "V2" /\ v[1] = "C14.no_crash"
 KF_C14_collector_error_only(v) == v[5] = "collector_error_only" /\ v[2] = "collector" /\ v[1] = "C14.listed"
